@@ -381,7 +381,7 @@ func c19MorePhases() []*fw.Phase {
 	}
 	trees := &fw.Phase{
 		Name: "pack-and-build-cyclic-and-special-trees-and-rule-files", Chroot: true, Exhaustive: true, CrashVerdict: c19Crash, CaseTimeout: 25 * time.Second,
-		N: func(string) int { return len(c19TreeCases())*len(allPackOpts) + len(c19RuleLines)*3 },
+		N:   func(string) int { return len(c19TreeCases())*len(allPackOpts) + len(c19RuleLines)*3 },
 		Run: c19Tree,
 	}
 	return []*fw.Phase{unpack, opendir, trees}
